@@ -220,7 +220,8 @@ def execute(scn):
   except NotImplementedError as e:
     return dict(ok=True, nontrivial=False, outcome="unsupported", info=str(e)[:160], key=util.sha(scn))
   nworld = len(worlds)
-  d = mjw.make_data(mjm, nworld=nworld, nconmax=128)
+  # the unfiltered reference run sends every candidate pair to the narrow phase: the pair buffer (naconmax) must hold them all
+  d = mjw.make_data(mjm, nworld=nworld, nconmax=max(128, mjm.ngeom * (mjm.ngeom - 1) // 2 + 16))
   util.set_field(d.qpos, np.array(worlds, dtype=np.float32))
   mjw.kinematics(m, d)
   c = util.Cmp()
@@ -239,7 +240,7 @@ def execute(scn):
     return _canon(d, nworld, gtype)
 
   ref, nref, ref_sw = run(BroadphaseType.NXN, BroadphaseFilter(0))
-  if nref > d.naconmax:
+  if nref > d.naconmax or int(d.ncollision.numpy()[0]) > d.naconmax:
     raise RuntimeError("harness: naconmax too small for the reference run")
   ref_count = collections.Counter(r[:3] for r in ref)
   npairs_candidate = int(m.nxn_geom_pair_filtered.shape[0]) * nworld
